@@ -222,6 +222,14 @@ def run_config(chk, config):
 
 def run(chk):
     run_config(chk, "default")
+    # "... and after the hidden AVP has been encoded and decoded": the Hidden wire form and the AVP header codec (C03, C05, C07)
+    from framework import Sub
+    import rules.c03 as c03
+    import rules.c05 as c05
+    import rules.c07 as c07
+    Sub(chk, "via C03 | ", lambda k: "Hidden" in k or k.startswith("hidden")).borrow(c03, "default", 1, "Hidden AVP decode")
+    Sub(chk, "via C05 | ", lambda k: k.startswith("avp-header-layout")).borrow(c05, "default", 1, "AVP header decode")
+    Sub(chk, "via C07 | ", lambda k: k.startswith("avp-length") and "Hidden" in k).borrow(c07, "default", 1, "AVP header encode (Hidden)")
     if chk.tier == "thorough":
         for cfg in ("debug", "release"):
             run_config(chk, cfg)
